@@ -272,3 +272,55 @@ func windowPoolScenario(rounds int) (string, string) {
 	}
 	return "", ""
 }
+
+// bigJSONScenario: a JSON document of more than a megabyte is read with wsjson.Read (limit lifted), then small
+// documents are read on the same and on a fresh connection: each must decode to exactly what was sent (the
+// pooled read buffer, grown large, must come back empty).
+func bigJSONScenario(rounds int) (string, string) {
+	for r := 0; r < rounds; r++ {
+		for _, client := range []bool{false, true} {
+			a, b := newPipe()
+			c := websocket.VerifNewConn(a, client, websocket.VerifCopts{}, 0)
+			c.SetReadLimit(-1)
+			peer := newRawPeer(b, !client)
+			big := `{"owner":"big","pad":"` + string(bytes.Repeat([]byte("p"), (1<<20)+(r+1)*300000)) + `"}`
+			peer.writeFrame(RawFrame{Fin: true, Op: 1, Payload: []byte(big)})
+			ctx, cancel := context.WithTimeout(context.Background(), 10*time.Second)
+			var v tagged
+			err := wsjson.Read(ctx, c, &v)
+			if err != nil || v.Owner != "big" || len(v.Pad) != len(big)-len(`{"owner":"big","pad":""}`) {
+				cancel()
+				c.CloseNow()
+				b.Close()
+				return "big-json-scenario-setup", fmt.Sprintf("round %d: reading the %d-byte document: owner %q, %v", r, len(big), v.Owner, err)
+			}
+			// same connection, then a new one
+			a2, b2 := newPipe()
+			c2 := websocket.VerifNewConn(a2, !client, websocket.VerifCopts{}, 0)
+			peer2 := newRawPeer(b2, client)
+			for k, tc := range []struct {
+				conn *websocket.Conn
+				p    *rawPeer
+				name string
+			}{{c, peer, "same connection"}, {c2, peer2, "new connection"}, {c, peer, "same connection again"}} {
+				small := fmt.Sprintf(`{"owner":"small-%d-%d","secret":"s%d"}`, r, k, k)
+				tc.p.writeFrame(RawFrame{Fin: true, Op: 1, Payload: []byte(small)})
+				var w tagged
+				if err := wsjson.Read(ctx, tc.conn, &w); err != nil || w.Owner != fmt.Sprintf("small-%d-%d", r, k) || w.Pad != "" {
+					cancel()
+					c.CloseNow()
+					c2.CloseNow()
+					b.Close()
+					b2.Close()
+					return "json-read-sees-earlier-document", fmt.Sprintf("round %d client=%v: after a %d-byte document, wsjson.Read of %s on the %s returned owner %q pad %d bytes, err %v", r, client, len(big), small, tc.name, w.Owner, len(w.Pad), err)
+				}
+			}
+			cancel()
+			c.CloseNow()
+			c2.CloseNow()
+			b.Close()
+			b2.Close()
+		}
+	}
+	return "", ""
+}
